@@ -236,7 +236,7 @@ def rule_f4(chk: Check, ir, tr):
                 ok = False
                 # evaluate: no conversion & no debug -> -1 ; debug only -> ord('r')
                 try:
-                    names = sorted({n.id for n in ast.walk(conv) if isinstance(n, ast.Name)})
+                    names = sorted({n.id for n in ast.walk(conv) if isinstance(n, ast.Name)} - set(constfold.SAFE_BUILTINS))
                     dbg = [n for n in names if "debug" in n]
                     cv = [n for n in names if "conv" in n]
                     rest = [n for n in names if n not in dbg and n not in cv]
